@@ -270,6 +270,11 @@ class Block:
         for c in self.constraints:
             if isinstance(c, MinimumTrials):
                 c.apply(self, None)
+        # Round up to a multiple of every sustain count before anything asks for
+        # (and caches) the number of trials
+        for count in self.crossing_sustain_counts:
+            if (self.min_trials//count) * count != self.min_trials:
+                self.min_trials = ((self.min_trials//count) + 1) * count
         for c in self.constraints:
             c.validate(self)
         for c in self.constraints:
